@@ -216,7 +216,7 @@ A = {
     "b1": {"quick": [False, True], "thorough": [False, True], "key": [False, True]},
     "str": {
         "quick": [None, "a", "b", "ab", LONG_A, LONG_B],
-        "thorough": [None, "a", "b", "ab", LONG_A, LONG_B, "é", "日本", "B", " ", "￿"],
+        "thorough": [None, "a", "b", "ab", LONG_A, LONG_B, "é", "e\u0301", "日本", "B", " ", "￿"],
         "key": [None, "a", "b"],
     },
     "U": {"quick": [None, "a", "b"], "thorough": [None, "a", "b", "ab"], "key": [None, "a", "b"]},
